@@ -190,29 +190,55 @@ Proof.
   intros p e q Hp. apply (W p e (q ++ flat_map (evs_day ds) L2)). rewrite Hp, <- app_assoc. reflexivity.
 Qed.
 
+(* any list of assertions on days of the journal whose lines are live positions with (in value)
+   their running quantities *)
+Lemma assertions_accepted ds W :
+  syntactic ds -> wellformed ds ->
+  (forall dt bs, In (dt, bs) W -> In dt (dates ds)) ->
+  (forall dt a c q, asserted W dt a c q ->
+     account_ok a = true /\ live (events_upto ds dt) a c = true /\
+     dec_equal (quantity (events_upto ds dt) a c) q = true) ->
+  syntactic (ds ++ written_directives W) /\ check_model (ds ++ written_directives W) = VOk.
+Proof.
+  intros Hs Wf Hdays Hsound.
+  assert (Hsyn : syntactic (ds ++ written_directives W)).
+  { intros d e Hd He. apply in_app_or in Hd. destruct Hd as [Hd|Hd]; [apply (Hs d e Hd He)|].
+    apply in_map_iff in Hd. destruct Hd as [[dt bs] [E Hin]]. subst d. cbn [assertion_directive fst snd events_of] in He.
+    apply in_map_iff in He. destruct He as [b [Eb Hb]]. subst e. cbn [ev_acc].
+    apply (Hsound dt (bal_acc b) (bal_com b) (bal_qty b)). exists bs. split; [exact Hin|]. destruct b. exact Hb. }
+  split; [exact Hsyn|]. apply (check_iff _ Hsyn).
+  apply extended_wellformed; [apply written_all_asserts| | |exact Wf].
+  - intros dt a c q Hdt He. apply evs_new_asserted in He.
+    destruct (Hsound dt a c q He) as (_ & L & Q). split; [|intros _; exact Q].
+    apply (live_open _ a c); [apply prefix_wellformed; exact Wf|exact L].
+  - intros d Hd. apply in_map_iff in Hd. destruct Hd as [[dt bs] [E Hin]]. subst d. cbn [assertion_directive fst snd ddate].
+    apply (Hdays dt bs Hin).
+Qed.
+
+Lemma written_lines ds W :
+  syntactic ds -> written ds = ROk W ->
+  (forall dt bs, In (dt, bs) W -> In dt (dates ds)) /\
+  (forall dt a c q, asserted W dt a c q ->
+     account_ok a = true /\ live (events_upto ds dt) a c = true /\
+     dec_equal (quantity (events_upto ds dt) a c) q = true).
+Proof.
+  intros Hs Hw.
+  destruct (write_complete_partial ds W Hs Hw) as (_ & Hdays & Hsound & _).
+  pose proof (written_wmatch ds W Hs Hw) as M.
+  split; [intros dt bs Hin; apply (Hdays dt bs Hin)|].
+  intros dt a c q Ha. destruct (Hsound dt a c q Ha) as [L Q]. split; [|split; assumption].
+  destruct Ha as (bs & Hin & Hb).
+  destruct (wmatch_entries _ _ _ M dt bs Hin) as (done & d & rest & s & _ & _ & I & K & _ & Hbs). subst bs.
+  destruct (line_sound _ _ a c q I K Hb) as (Oa & _). exact Oa.
+Qed.
+
 Theorem written_accepted ds W :
   syntactic ds -> check_model ds = VOk -> written ds = ROk W ->
   syntactic (ds ++ written_directives W) /\ check_model (ds ++ written_directives W) = VOk.
 Proof.
   intros Hs Hok Hw. pose proof (proj1 (check_iff ds Hs) Hok) as Wf.
-  destruct (write_complete_partial ds W Hs Hw) as (_ & Hdays & Hsound & _).
-  pose proof (written_wmatch ds W Hs Hw) as M.
-  assert (Hacc : forall dt a c q, asserted W dt a c q -> account_ok a = true /\ is_AL a = true).
-  { intros dt a c q (bs & Hin & Hb).
-    destruct (wmatch_entries _ _ _ M dt bs Hin) as (done & d & rest & s & _ & _ & I & K & _ & Hbs). subst bs.
-    destruct (line_sound _ _ a c q I K Hb) as (Oa & Al & _). split; assumption. }
-  assert (Hsyn : syntactic (ds ++ written_directives W)).
-  { intros d e Hd He. apply in_app_or in Hd. destruct Hd as [Hd|Hd]; [apply (Hs d e Hd He)|].
-    apply in_map_iff in Hd. destruct Hd as [[dt bs] [E Hin]]. subst d. cbn [assertion_directive fst snd events_of] in He.
-    apply in_map_iff in He. destruct He as [b [Eb Hb]]. subst e. cbn [ev_acc].
-    apply (Hacc dt (bal_acc b) (bal_com b) (bal_qty b)). exists bs. split; [exact Hin|]. destruct b. exact Hb. }
-  split; [exact Hsyn|]. apply (check_iff _ Hsyn).
-  apply extended_wellformed; [apply written_all_asserts| | |exact Wf].
-  - intros dt a c q Hdt He. apply evs_new_asserted in He.
-    destruct (Hsound dt a c q He) as [L Q]. split; [|intros _; exact Q].
-    apply (live_open _ a c); [apply prefix_wellformed; exact Wf|exact L].
-  - intros d Hd. apply in_map_iff in Hd. destruct Hd as [[dt bs] [E Hin]]. subst d. cbn [assertion_directive fst snd ddate].
-    apply (Hdays dt bs Hin).
+  destruct (written_lines ds W Hs Hw) as [H1 H2].
+  apply assertions_accepted; assumption.
 Qed.
 
 (* ------------------------------------------------------------------ the command *)
@@ -260,6 +286,34 @@ Proof.
   inversion H. reflexivity.
 Qed.
 
+(* a journal extended by assertions, from the model directives to the command *)
+Lemma accepted_cmd sds ds W :
+  sd_syntactic sds -> parse_directives sds = MOk ds ->
+  syntactic (ds ++ written_directives W) -> check_model (ds ++ written_directives W) = VOk ->
+  check_cmd_fixed (sds ++ map assertion_sdirective W) = COk tt.
+Proof.
+  intros Hs P Hsyn2 Hacc.
+  assert (Pw : parse_directives (map assertion_sdirective W) = MOk (written_directives W)).
+  { apply parse_written. intros dt bs b Hin Hb. apply account_ok_valid.
+    apply (Hsyn2 (DAssert dt bs) (EAssert (bal_acc b) (bal_com b) (bal_qty b))).
+    - apply in_or_app. right. apply in_map_iff. exists (dt, bs). split; [reflexivity|exact Hin].
+    - cbn [events_of]. apply in_map_iff. exists b. split; [reflexivity|exact Hb]. }
+  assert (P2 : parse_directives (sds ++ map assertion_sdirective W) = MOk (ds ++ written_directives W)).
+  { rewrite parse_directives_app, P, Pw. reflexivity. }
+  apply check_cmd_iff.
+  - intros ds' E. rewrite P2 in E. inversion E. subst ds'. exact Hsyn2.
+  - exists (ds ++ written_directives W). split; [exact P2|]. apply (check_iff _ Hsyn2). exact Hacc.
+Qed.
+
+Lemma accepted_model sds ds :
+  sd_syntactic sds -> parse_directives sds = MOk ds -> check_cmd_fixed sds = COk tt ->
+  syntactic ds /\ wellformed ds /\ check_model ds = VOk.
+Proof.
+  intros Hs P Hok. pose proof (Hs ds P) as Hsyn. split; [exact Hsyn|].
+  destruct (proj1 (check_cmd_iff sds Hs) Hok) as [ds' [P' Wf]].
+  rewrite P in P'. inversion P'. subst ds'. split; [exact Wf|]. apply (check_iff ds Hsyn). exact Wf.
+Qed.
+
 (* for every journal the checker accepts, `check --write` prints assertions, and the journal
    extended by them (as further directives, anywhere in the files: the order is irrelevant) is
    accepted too *)
@@ -271,19 +325,7 @@ Proof.
   intros Hs Hok. destruct (check_write_succeeds sds Hok) as [W [HW Hcmd]].
   exists W. split; [exact HW|]. split; [exact Hcmd|].
   destruct (check_write_assertions_written sds W HW) as [ds [P Hw]].
-  pose proof (Hs ds P) as Hsyn.
-  assert (Hm : check_model ds = VOk).
-  { apply (check_iff ds Hsyn). destruct (proj1 (check_cmd_iff sds Hs) Hok) as [ds' [P' Wf]].
-    rewrite P in P'. inversion P'. subst ds'. exact Wf. }
+  destruct (accepted_model sds ds Hs P Hok) as (Hsyn & _ & Hm).
   destruct (written_accepted ds W Hsyn Hm Hw) as [Hsyn2 Hacc].
-  assert (Pw : parse_directives (map assertion_sdirective W) = MOk (written_directives W)).
-  { apply parse_written. intros dt bs b Hin Hb. apply account_ok_valid.
-    apply (Hsyn2 (DAssert dt bs) (EAssert (bal_acc b) (bal_com b) (bal_qty b))).
-    - apply in_or_app. right. apply in_map_iff. exists (dt, bs). split; [reflexivity|exact Hin].
-    - cbn [events_of]. apply in_map_iff. exists b. split; [reflexivity|exact Hb]. }
-  assert (P2 : parse_directives (sds ++ map assertion_sdirective W) = MOk (ds ++ written_directives W)).
-  { rewrite parse_directives_app, P, Pw. reflexivity. }
-  apply check_cmd_iff.
-  - intros ds' E. rewrite P2 in E. inversion E. subst ds'. exact Hsyn2.
-  - exists (ds ++ written_directives W). split; [exact P2|]. apply (check_iff _ Hsyn2). exact Hacc.
+  apply (accepted_cmd sds ds W Hs P Hsyn2 Hacc).
 Qed.
